@@ -11,7 +11,7 @@ from pathlib import Path
 
 import vlib
 from vlib import Check
-from checks.decoder_common import decoder_models
+from checks.decoder_common import decoder_models, decoder_traces
 from checks.reader_common import make_files, tlc_variants, time_edges
 
 ASAN_ENV = {"ASAN_OPTIONS": "abort_on_error=1:detect_leaks=0:allocator_may_return_null=0:max_allocation_size_mb=256:"
@@ -200,6 +200,10 @@ def run(tier):
     chk.assumptions = ["AddressSanitizer + UBSan are the instruments for memory errors and undefined arithmetic",
                        "the input space is sampled", "TLC + CommunityModules"]
     decoder_models(chk, tier, selftests=["depth", "reserve", "stale"])
+    # streams that end, cannot be opened, or break (an I/O error at a refill: badbit without the end-of-file flag) at every
+    # length around the multiples of the window: a value returned then is made of stale / never-filled buffer bytes
+    mlen = decoder_traces(chk, tier, {"C03"}, "lengths")
+    mlen2 = decoder_traces(chk, tier, {"C03"}, "lengths", scaled=True)
     rng = random.Random(chk.seed * 43 + 3)
     work = vlib.scratch("c03")
     files = make_files(work, rng, 10 if tier == "quick" else 60)
